@@ -335,6 +335,7 @@ impl Engine {
         let mut c = self.m.cfg.clone();
         let quiet = self.quiescent();
         let (mut s_native, mut s_proto, mut s_fee, mut s_mon, mut s_bp) = (false, false, false, false, false);
+        let mut upper_prefix = false;
         for sct in secs {
             match sct {
                 CfgSection::Fee { rate, treasury } => {
@@ -381,7 +382,8 @@ impl Engine {
                 CfgSection::Protocol { min_stake, oracle, channel, spell } => {
                     c.min_stake = *min_stake;
                     c.oracle = if *oracle && !self.force_no_oracle { Some(self.w.setup.oracle_addr.clone()) } else { None };
-                    if *spell >= 4 {
+                    upper_prefix = *spell >= 8;
+                    if *spell % 8 >= 4 {
                         // the legal all-upper-case spelling of the same oracle account
                         c.oracle = c.oracle.map(|o| o.to_uppercase());
                         self.stats.probe("oracle_configured_in_upper_case");
@@ -399,7 +401,18 @@ impl Engine {
         }
         let msg = json!({"update_config": {
             "native_chain_config": if s_native { self.native_cfg_json(&c) } else { Value::Null },
-            "protocol_chain_config": if s_proto { self.protocol_cfg_json(&c) } else { Value::Null },
+            "protocol_chain_config": if s_proto {
+                let mut j = self.protocol_cfg_json(&c);
+                if upper_prefix && c.oracle.is_none() {
+                    // the all-upper-case spelling of the prefix is legal and is stored in lower case; it can only be
+                    // used when the section carries no address (addresses are compared with the prefix as typed)
+                    j["account_address_prefix"] = json!(self.w.setup.proto_prefix.to_uppercase());
+                    self.stats.probe("protocol_prefix_typed_in_upper_case");
+                }
+                j
+            } else {
+                Value::Null
+            },
             "protocol_fee_config": if s_fee { self.fee_cfg_json(&c) } else { Value::Null },
             "monitors": if s_mon { json!(c.monitors) } else { Value::Null },
             "batch_period": if s_bp { json!(c.batch_period) } else { Value::Null },
